@@ -397,6 +397,10 @@ def job_flux_is_boundary_derivative(job, nx):
     job_recovery(job, nx)
 
 
+# concrete replays run on the real code when the changed code uses something the engine does not model (harness.finish)
+FALLBACK = [(replay_ceiling_run, {}), (replay_ceiling_run, {"tdtype": "f8"}), (replay_balance_sp, {}), (replay_flux, {}), (replay_flux, {"cls": "IdealReservoir"})]
+
+
 def jobs(tier):
     out = [("flux-derivative-5", lambda j: job_flux_is_boundary_derivative(j, 5)), ("ceiling-3-2", lambda j: job_zero_and_ceiling(j, 3, 2)), ("ceiling-4-2", lambda j: job_zero_and_ceiling(j, 4, 2)),
            ("scale", job_scale), ("trapezoid-4", lambda j: job_trapezoid(j, 4)),
